@@ -11,7 +11,7 @@ from ..space import Listed, Product
 
 ID = "C05"
 LEVEL = "exploration"
-TECHNIQUE = "exhaustive walk over the shipped vocabulary (every month/weekday name of every language and regional locale, NORMALIZE on/off) with the data files as specification of meaning"
+TECHNIQUE = "exhaustive walk over the shipped vocabulary (every month/weekday name of every language and regional locale, NORMALIZE on/off) with the data files as specification of meaning; plus, per language with regional locales and per load order, a fresh interpreter that loads all its locale objects in that order before checking every name (histories of locale loading)"
 RULE = ("cases = every string listed under a month or weekday key of each of the 504 locale objects (language data overlaid "
         "with locale_specific by the harness's own merge) that has a single meaning in that locale and mode, x NORMALIZE on/off x "
         "day numbers x years (months) / reference dates on the 8th..24th (weekdays); non-trivial = the library returned a datetime; "
